@@ -106,8 +106,9 @@ def run(ctx):
                      "(or a draw wrapper that does not narrow exactly its three scalar arguments)",
                      None, {k: sites.count(k) for k in sorted(set(sites))}, {"draw": 3, "debug": "any"})
     ss = S.generate(ctx, 14 if ctx.quick else 100, 2 if ctx.quick else 4, max_e=6, max_loops=4, routings_per_graph=1, kinds=("uniform",))
-    for s in ss:
-        s["req"] = S.sample_request(s["case"], s["routing"], s["table"], s["xs"], debug=False, meta=True)
+    for k, s in enumerate(ss):
+        # every other sample runs with the matrix stability test on (a comparison made on the user's type, not a narrowing)
+        s["req"] = S.sample_request(s["case"], s["routing"], s["table"], s["xs"], debug=False, meta=True, tol=(1e-6 if k % 2 else None))
     tr = run_harness([dict(s["req"], op="sample_track") for s in ss])
     dd = run_harness([dict(s["req"], op="sample_dd") for s in ss])
     for s, t, d in zip(ss, tr, dd):
